@@ -15,6 +15,13 @@ r = subprocess.run("git -C /repo apply %s" % patch, shell=True)
 if r.returncode:
     print("patch does not apply"); sys.exit(2)
 res = {}
+# evidence files must only ever describe runs against /repo itself: keep the current ones aside and put them back afterwards
+import shutil, tempfile
+keep = tempfile.mkdtemp(prefix="seedtest-evidence-")
+for i in ids:
+    ev = os.path.join(V, "evidence", "%s.json" % i)
+    if os.path.exists(ev):
+        shutil.copy(ev, os.path.join(keep, "%s.json" % i))
 try:
     for i in ids:
         cmd = "cd %s && timeout 3000 python3 tools/dev.py %s quick" % (V, i) if DEV else "cd %s && timeout 3000 ./check %s quick" % (V, i)
@@ -36,5 +43,12 @@ try:
         print(i, "exit=%d" % p.returncode, "; ".join(lines[:2]), "|", " / ".join(what)); sys.stdout.flush()
 finally:
     sh("git -C /repo checkout -- . && git -C /repo clean -fdq src")
+    for i in ids:
+        ev = os.path.join(V, "evidence", "%s.json" % i)
+        if os.path.exists(os.path.join(keep, "%s.json" % i)):
+            shutil.copy(os.path.join(keep, "%s.json" % i), ev)
+        elif os.path.exists(ev):
+            os.remove(ev)
+    shutil.rmtree(keep, ignore_errors=True)
     # restore generated files that depend on /repo
     sh("cd %s && python3 tools/gen_from_src.py" % V)
